@@ -44,7 +44,8 @@ PROBES = ['A-no-address', 'A-all-refused', 'A-second-address-used', 'A-closed-du
           'B-loss-with-pending-calls', 'B-loss-with-deadline', 'B-proxy-explicit',
           'B-proxy-introspected', 'B-proxy-by-name', 'B-two-proxies-same-object',
           'B-introspection-in-flight-at-loss', 'B-errback-issues-call', 'B-reset',
-          'B-client-disconnect', 'B-callback-cancelled', 'B-proxy-dropped', 'B-second-connection']
+          'B-client-disconnect', 'B-callback-cancelled', 'B-proxy-dropped', 'B-second-connection',
+          'B-call-answered-with-error']
 COMPONENTS = {
     'real': ['txdbus.client.connect / DBusClientFactory / DBusClientConnection',
              'txdbus.endpoints.getDBusEndpoints', 'twisted UNIXClientEndpoint / TCP4ClientEndpoint / '
@@ -156,10 +157,14 @@ def part_a(ctx):
                 if m.mtype == rc.METHOD_CALL and m.fields.get(rc.F_MEMBER) == 'Hello':
                     if script == 'hello-error':
                         srv.serial += 1
+                        bodyless = ds.flag(0.4)
                         e = rc.Msg(rc.ERROR, srv.serial,
                                    {rc.F_REPLY_SERIAL: m.serial,
                                     rc.F_ERROR_NAME: 'org.freedesktop.DBus.Error.LimitsExceeded'},
-                                   's', ['too many connections'])
+                                   '' if bodyless else ds.pick(['s', 'is']),
+                                   [] if bodyless else ['too many connections'])
+                        if e.sig == 'is':
+                            e.body = [7, 'too many connections']
                         srv.transport.write(e.encode())
                     else:
                         srv.transport.loseConnection()
@@ -335,9 +340,17 @@ def part_b(ctx):
         # ordinary call: answer some
         for c in calls:
             if c['serial'] == m.serial:
-                if ds.flag(0.4):
+                k = ds.weighted([6, 3, 1.5])
+                if k == 1:
                     c['answered'] = True
                     daemon.method_return(m.serial, 'i', [c['id']], dest=rig.bus_name, sender=':1.9')
+                elif k == 2:
+                    # an error reply, with or without a body
+                    c['answered'] = True
+                    sig, body = ds.pick([('', []), ('s', ['no']), ('i', [5])])
+                    daemon.error(m.serial, 'org.sim.Error.Nope', sig, body, dest=rig.bus_name,
+                                 sender=':1.9')
+                    sim.probe('B-call-answered-with-error')
         return True
     rig.handlers.append(on_msg)
 
@@ -511,7 +524,7 @@ def part_b(ctx):
             raise Violation('C09/call-fired-twice', 'twice', 'call %d fired %d times' % (c['id'], n))
         kind, val = c['obs'].fired[0]
         if kind == 'err' and not val.check(tierror.ConnectionDone, tierror.ConnectionLost,
-                                           t_error.TimeOut):
+                                           t_error.TimeOut, t_error.RemoteError):
             raise Violation('C09/call-wrong-failure', type(val.value).__name__,
                             'call %d failed with %r' % (c['id'], val.value))
         if c['dc'] is not None and c['dc'].active():
